@@ -41,8 +41,8 @@ CLAIMED = {
             "Trusted: z3, meta-interpreter (paths re-run natively), codec stub, uuid/thread stubs (thread bodies run on a real helper thread at a harness-chosen point). Outside: true parallelism of the oneway thread with the serving thread (only the two orders before/after step 2), the client side.",
             "DESIGN.md section 4 C12"),
     "C09": (E1, "symbolic execution of the real Daemon._getInstance / behavior / SocketConnection.close (AST meta-interpreter + z3), one inductive step from an arbitrary table pre-state with symbolic instance truthiness",
-            "For each mode (single, session, percall, invalid), creator behaviour (none, returns instance, wrong type, raises), instance shape (plain, __len__-falsy with symbolic length, __bool__ with symbolic value, all-equal __eq__/__hash__) and every pre-state of the daemon-wide and per-connection tables: existing instances are reused by identity with zero creations, missing ones are created exactly once and stored in the right table, percall stores nothing, sessions are never shared between connections, close() drops the session table even when shutdown() fails. The concurrent first-call race of 'single' is not yet covered (schedule engine pending). One known finding (falsy instances are recreated).",
-            "Trusted: z3, meta-interpreter (paths re-run natively). Outside: thread interleavings of concurrent first calls (planned under the schedule BMC engine).",
+            "(E1) For each mode (single, session, percall, invalid), creator behaviour (none, returns instance, wrong type, raises), instance shape (plain, __len__-falsy with symbolic length, __bool__ with symbolic value, all-equal __eq__/__hash__) and every pre-state of the daemon-wide and per-connection tables: existing instances are reused by identity with zero creations, missing ones are created exactly once and stored in the right table, percall stores nothing, sessions are never shared between connections, close() drops the session table even when shutdown() fails. (E2, symbmc) for 2 (thorough 3) concurrent first calls on a 'single' class and every statement-level schedule of the real _getInstance: at most one instance is ever created, all callers get the same one, no deadlock. One known finding (falsy instances are recreated).",
+            "Trusted: z3, meta-interpreter (paths re-run natively), for the race part the CFG front end of symbmc (createInstance abstracted as one creation step; counterexamples replayed on a real Daemon with real threads). Outside: more concurrent callers than listed.",
             "DESIGN.md section 4 C09"),
     "C13": (E1, "symbolic execution of the real thread-server job loop / multiplex events loop, SocketConnection.close and _clientDisconnect (AST meta-interpreter + z3) over all ways a connection ends",
             "An established connection (0 or 1 requests served, 0..4 tracked resources half of which fail on close, one untracked again, a session instance) ends by orderly EOF, reset, timeout, a request cut at every byte offset 1..47 (symbolic), 40 arbitrary garbage bytes, a SecurityError or an ordinary error followed by EOF; disconnect hook may raise; shutdown() may fail; both server types; a second connection stays open. Checked: hook called exactly once with this connection, every tracked resource closed exactly once (also after a second close()), untracked ones never, session table empty, socket closed, worker/selector slot released, the other connection, its resource, session and selector slot untouched.",
@@ -52,6 +52,26 @@ CLAIMED = {
             "(garbage) N arbitrary symbolic bytes with every prefix truncation then eof/timeout(/reset), as first message or after a valid handshake; (structured) a framed request with symbolic type, serializer id, flags, seq, eight payload shapes and ten method behaviours incl. unserialisable results, unserialisable and unprintable exceptions and communication errors raised by the method; (refusal) pool-full accept loop with a client that reads, is gone, or stalls. Checked: no exception leaves the job/event/accept loop, the attacker's connection/slot is released, nothing runs for garbage, replies carry a request's seq, the witness client gets exactly its own correct reply and a new client is admitted. One genuine defect (refusal reply failure ends the accept loop) is a known finding.",
             "Trusted: z3, meta-interpreter (paths re-run natively), codec/zlib contract stubs, fake sockets. Outside: real sockets and the kernel, memory exhaustion, BaseException-only errors raised by user methods, a peer that sends nothing on a connection without timeout.",
             "DESIGN.md section 4 C05"),
+    "C10": (E1, "symbolic execution of the real stream bookkeeping (get_next_stream_item, close_stream, _streamResponse, _clientDisconnect, _housekeeping) and of the client stream iterator over a loopback (AST meta-interpreter + z3); timestamps, clock, lifetime and linger are symbolic reals",
+            "(table_step) one next/close/disconnect/housekeeping step from every stream table of <= 2 (thorough 3) entries with owner A/B/lingering, symbolic creation and linger timestamps, 0..1 (2) items left or failing now, symbolic clock/lifetime/linger, requested id known or an arbitrary unknown string: exactly the addressed stream advances by one item, exhaustion/failure/close forget it, unknown ids give an error and never items, disconnect turns A's streams into lingering ones or drops them and leaves B's alone, housekeeping drops exactly the streams strictly past lifetime/linger and keeps those strictly within. (end_to_end) two streams of length 0..2 (iterator object or generator, one raising midway) consumed through the real client iterator in every interleaving of 4 (6) next/close steps: items are the source prefix in order, StopIteration exactly at exhaustion, the generator's exception at its position, nothing after close, the server forgets finished streams.",
+            "Trusted: z3 (linear real arithmetic for clock comparisons), meta-interpreter (paths re-run natively), codec stub, loopback sockets, fake clock. Outside: wall-clock behaviour, more than 3 streams, the client being garbage-collected mid-call.",
+            "DESIGN.md section 4 C10"),
+    "C11": (E1, "symbolic execution of the real client BatchProxy and the daemon's batch and single-call branches over a loopback (AST meta-interpreter + z3), differential against one-by-one calls on a twin object with symbolic integer arguments",
+            "For every sequence of 0..2 (thorough 3) calls over {add, put, get, fail_if, unexposed, _private, nosuch} with symbolic integer arguments, normal and oneway batch: same final (symbolic) state and number of executed calls as one-by-one calls on a twin, same results in order, same failure class, one request per batch, nothing returned and no reply read for oneway, the batch proxy is empty after submission. One known finding (results before a refused member are lost).",
+            "Trusted: z3, meta-interpreter (paths re-run natively), codec stub, loopback sockets. Outside: serializer-specific encodings of batch results (C01/C07), sequences longer than the bound.",
+            "DESIGN.md section 4 C11"),
+    "C16": (E1, "symbolic execution of the real Daemon.register/unregister/uriFor/proxyFor/_pyro_obj_to_auto_proxy/_unpack_weakref (AST meta-interpreter + z3) with the registry as an association list whose key equality is decided by the solver, so operation ids and request ids are symbolic strings",
+            "One register (object or class, generated id or symbolic given id, force, weak) / unregister by object / unregister by symbolic id / garbage collection of a weakly registered object from every pre-state of a 3-object pool; afterwards: reported ids equal a reference dict, a lookup of an arbitrary symbolic id reaches exactly the reference's object, the daemon object stays reachable, every pool object travels as proxy naming one of its ids iff registered else by value, the auto-proxy hook is installed. Three genuine violation classes are known findings.",
+            "Trusted: z3, meta-interpreter (paths re-run natively), SymDict overlay for the registry. Outside: when the garbage collector runs (collection is a harness event), histories longer than pre-state + one operation (inductive step over the pre-states listed).",
+            "DESIGN.md section 4 C16"),
+    "C18": (E2, "bounded model checking of thread schedules (QF_BV, z3): statement-level CFG extracted from the real Pool.process/notify_done/close/num_workers and Worker.run/process source, symbolic scheduler and symbolic set.pop choice; counterexample schedules replayed on the real Pool with real threads through a sys.settrace line gate",
+            "For pool sizes (MIN,SIZE) in {(1,1),(1,2),(2,2)} (thorough also (1,3),(2,3)), 1..2 (3) submitted jobs, all schedules of <= K statements (K 26..42 quick, up to 56 thorough) of the accept thread, every worker thread and optionally a closer thread: |idle U busy| <= SIZE and idle, busy disjoint at every step; no job runs twice, refused jobs never run, no internal error in the accept thread; at quiescence every accepted job was served (no lost wake-up / deadlock); after close() returned no job starts and every worker that close told to stop exits. Two genuine races are known findings (found by the solver and reproduced on real threads).",
+            "Trusted: z3; the CFG/abstract-store front end (unknown statement forms abort; counterexamples are replayed on the real classes); statement-level atomicity under the GIL; a job is one atomic step. Outside: close racing with process, more jobs/threads or longer schedules than listed, free-threaded builds. The refusal path's CONNECTFAIL answer is covered under C05.",
+            "DESIGN.md section 4 C18"),
+    "C15": (E2, "bounded model checking of thread schedules (QF_BV, z3) over the statement-level CFG of the real NameServer.register/remove/set_metadata/lookup and MemoryStorage.remove_items; linearizability oracle against a reference map written in z3; counterexamples replayed on the real NameServer with real threads",
+            "For every pair (thorough: also selected triples) of operation kinds {safe/unsafe register, remove by name, remove by prefix, set_metadata, lookup}, solver-chosen names (2-name universe), URIs, metadata, initial map and every statement-level schedule: no internal error (KeyError) escapes and the results plus the final map are explained by some sequential order of the operations. Combinations containing a remove violate this in the unmodified code (known finding); all others are proved within the bound.",
+            "Trusted: z3; CFG/abstract-store front end (untranslatable nodes must be unreachable; counterexamples replayed on the real classes); list() modelled as one atomic guarded step; MemoryStorage back-end only. Outside: more than 3 clients, more than one operation per client, sqlite back-end concurrency.",
+            "DESIGN.md section 4 C15"),
 }
 
 NOT_YET = "check not built yet (build in progress; see DESIGN.md section 7)"
